@@ -75,6 +75,7 @@ struct vec_basic {
   void erase(unsigned pos) { __CPROVER_assert(pos < n, "vector erase position in range"); if (pos < n) { vb_shift_down(d, n, pos); n = n - 1; } }
   void resize(unsigned k) { __CPROVER_assert(k <= CAP, "stub capacity (vec_basic)"); if (k > n) vb_fill(d, n, k, 0, false); n = k; }
   void clear() { n = 0; }
+  void assign(unsigned k, const RCPBasic &x) { __CPROVER_assert(k <= CAP, "stub capacity (vec_basic)"); n = k; vb_fill(d, 0, k, x.b.v, x.nn); }
   void push_back(const RCPBasic &x) { __CPROVER_assert(n < CAP, "stub capacity (vec_basic)"); if (n < CAP) { d[n].b.v = x.b.v; d[n].nn = x.nn; n = n + 1; } }
 };
 extern "C" void vb_shift_up(RCPBasic *d, unsigned n, unsigned k) { for (unsigned i = CAP - 1; i > 0; i--) if (i > k && i <= n) { d[i].b.v = d[i - 1].b.v; d[i].nn = d[i - 1].nn; } }
